@@ -270,6 +270,143 @@ impl<L: LitName> Subject for AigSkip<L> {
     }
 }
 
+/// Streaming API with PARTIAL consumption: of section k only the first `limits[k]` entries are read
+/// before the next section is asked for (0 = the section is skipped, usize::MAX = read to its end).
+/// Sections: 0 inputs, 1 latches, 2 outputs, 3 bad, 4 constraints, 5 justice sizes, 6 justice
+/// literals, 7 fairness, 8 and gates, 9 symbols. Whatever is handed out must be what the complete
+/// stream hands out for the same entries.
+pub const MIXED_MODES: u8 = 21;
+pub const MIXED_TAGS: [&str; 10] = ["input ", "latch ", "output ", "bad ", "constraint ", "justicesize ", "justicelit ", "fairness ", "and ", "symbol "];
+pub fn mixed_limits(mode: u8) -> [usize; 10] {
+    let mut l = [usize::MAX; 10];
+    match mode {
+        0..=9 => l[mode as usize] = 0,
+        10..=19 => l[mode as usize - 10] = 1,
+        _ => l = [1; 10],
+    }
+    l
+}
+
+/// The items of the complete stream that a partial consumption with these limits must hand out.
+pub fn mixed_expected(full: &[String], limits: &[usize; 10]) -> Vec<String> {
+    let mut seen = [0usize; 10];
+    let mut out = Vec::new();
+    for it in full {
+        match MIXED_TAGS.iter().position(|t| it.starts_with(t)) {
+            Some(k) => {
+                if seen[k] < limits[k] {
+                    out.push(it.clone());
+                }
+                seen[k] += 1;
+            }
+            None => out.push(it.clone()),
+        }
+    }
+    out
+}
+
+macro_rules! section {
+    ($r:ident, $next:ident, $limit:expr, $emit:ident, $x:ident => $fmt:expr) => {{
+        let mut n = 0usize;
+        while n < $limit {
+            match tri!($r.$next()) {
+                Some($x) => $emit($fmt),
+                None => break,
+            }
+            n += 1;
+        }
+    }};
+}
+
+pub struct AagMixed<L>(pub u8, pub PhantomData<fn() -> L>);
+impl<L: LitName> Subject for AagMixed<L> {
+    fn name(&self) -> String {
+        format!("aag-mixed{}<{}>", self.0, L::NAME)
+    }
+    fn streaming(&self) -> bool {
+        false
+    }
+    fn run(&self, reader: DeferredReader<'_>, emit: &mut dyn FnMut(String)) -> End {
+        let lim = mixed_limits(self.0);
+        let p = tri!(ascii::Parser::<L>::new(LineReader::new(reader), ascii::Config::default()));
+        emit(format!("header {:?}", p.header()));
+        let mut r = tri!(p.inputs());
+        section!(r, next_input, lim[0], emit, x => format!("input {}", x.code()));
+        let mut r = tri!(r.latches());
+        section!(r, next_latch, lim[1], emit, l => format!("latch {} {} {:?}", l.state.code(), l.next_state.code(), l.initialization));
+        let mut r = tri!(r.outputs());
+        section!(r, next_output, lim[2], emit, x => format!("output {}", x.code()));
+        let mut r = tri!(r.bad_state_properties());
+        section!(r, next_bad_state_property, lim[3], emit, x => format!("bad {}", x.code()));
+        let mut r = tri!(r.invariant_constraints());
+        section!(r, next_invariant_constraint, lim[4], emit, x => format!("constraint {}", x.code()));
+        let mut r = tri!(r.justice_properties());
+        section!(r, next_justice_property_size, lim[5], emit, x => format!("justicesize {}", x));
+        let mut r = tri!(r.justice_property_local_fairness_constraints());
+        section!(r, next_justice_property_local_fairness_constraint, lim[6], emit, x => format!("justicelit {}", x.code()));
+        let mut r = tri!(r.fairness_constraints());
+        section!(r, next_fairness_constraint, lim[7], emit, x => format!("fairness {}", x.code()));
+        let mut r = tri!(r.and_gates());
+        section!(r, next_and_gate, lim[8], emit, g => format!("and {} {} {}", g.output.code(), g.inputs[0].code(), g.inputs[1].code()));
+        let mut r = tri!(r.symbols());
+        section!(r, next_symbol, lim[9], emit, s => show_symbol(&s));
+        match r.comment() {
+            Ok(Some(c)) => {
+                let c = c.as_bytes().to_vec();
+                emit(format!("comment {:?}", c));
+            }
+            Ok(None) => {}
+            Err(e) => return end_of(e),
+        }
+        End::Clean
+    }
+}
+
+pub struct AigMixed<L>(pub u8, pub PhantomData<fn() -> L>);
+impl<L: LitName> Subject for AigMixed<L> {
+    fn name(&self) -> String {
+        format!("aig-mixed{}<{}>", self.0, L::NAME)
+    }
+    fn streaming(&self) -> bool {
+        false
+    }
+    fn boundaries(&self, input: &[u8]) -> Vec<usize> {
+        binary_boundaries(input)
+    }
+    fn run(&self, reader: DeferredReader<'_>, emit: &mut dyn FnMut(String)) -> End {
+        let lim = mixed_limits(self.0);
+        let p = tri!(binary::Parser::<L>::new(LineReader::new(reader), binary::Config::default()));
+        emit(format!("header {:?}", p.header()));
+        let mut r = tri!(p.latches());
+        section!(r, next_latch, lim[1], emit, l => format!("latch {} {:?}", l.next_state.code(), l.initialization));
+        let mut r = tri!(r.outputs());
+        section!(r, next_output, lim[2], emit, x => format!("output {}", x.code()));
+        let mut r = tri!(r.bad_state_properties());
+        section!(r, next_bad_state_property, lim[3], emit, x => format!("bad {}", x.code()));
+        let mut r = tri!(r.invariant_constraints());
+        section!(r, next_invariant_constraint, lim[4], emit, x => format!("constraint {}", x.code()));
+        let mut r = tri!(r.justice_properties());
+        section!(r, next_justice_property_size, lim[5], emit, x => format!("justicesize {}", x));
+        let mut r = tri!(r.justice_property_local_fairness_constraints());
+        section!(r, next_justice_property_local_fairness_constraint, lim[6], emit, x => format!("justicelit {}", x.code()));
+        let mut r = tri!(r.fairness_constraints());
+        section!(r, next_fairness_constraint, lim[7], emit, x => format!("fairness {}", x.code()));
+        let mut r = tri!(r.and_gates());
+        section!(r, next_and_gate, lim[8], emit, g => format!("and {} {}", g.inputs[0].code(), g.inputs[1].code()));
+        let mut r = tri!(r.symbols());
+        section!(r, next_symbol, lim[9], emit, s => show_symbol(&s));
+        match r.comment() {
+            Ok(Some(c)) => {
+                let c = c.as_bytes().to_vec();
+                emit(format!("comment {:?}", c));
+            }
+            Ok(None) => {}
+            Err(e) => return end_of(e),
+        }
+        End::Clean
+    }
+}
+
 pub struct AigParse<L>(pub PhantomData<fn() -> L>);
 impl<L: LitName> Subject for AigParse<L> {
     fn name(&self) -> String {
@@ -496,7 +633,15 @@ fn mk<L: LitName>(kind: &str) -> Box<dyn Subject> {
         "aag-skip" => Box::new(AagSkip::<L>(PhantomData)),
         "aig-skip" => Box::new(AigSkip::<L>(PhantomData)),
         "aig-stream" => Box::new(AigStream::<L>(PhantomData)),
-        other => panic!("unknown subject kind {other}"),
+        other => {
+            if let Some(m) = other.strip_prefix("aag-mixed").and_then(|m| m.parse::<u8>().ok()) {
+                return Box::new(AagMixed::<L>(m, PhantomData));
+            }
+            if let Some(m) = other.strip_prefix("aig-mixed").and_then(|m| m.parse::<u8>().ok()) {
+                return Box::new(AigMixed::<L>(m, PhantomData));
+            }
+            panic!("unknown subject kind {other}")
+        }
     }
 }
 
